@@ -360,7 +360,23 @@ def run(ctx):
         allev.extend(ev)
         if len(tab) > len(alltab):
             alltab = tab
-    validate(ctx, allev, alltab, "lifecycles", nrec)
+    if quick:
+        validate(ctx, allev, alltab, "lifecycles", nrec)
+    else:
+        # one TLC run per group of ten executions, eight at a time (a single trace of 120 life cycles takes TLC too long)
+        groups, cur, n = [], [], 0
+        for e in allev:
+            if e.get("op") == "Reset":
+                if n and n % 10 == 0:
+                    groups.append(cur)
+                    cur = []
+                n += 1
+            cur.append(e)
+        if cur:
+            groups.append(cur)
+        from concurrent.futures import ThreadPoolExecutor
+        with ThreadPoolExecutor(8) as ex:
+            list(ex.map(lambda ge: validate(ctx, ge[1], alltab, "lifecycles%d" % ge[0], sum(1 for x in ge[1] if x.get("op") == "Reset")), enumerate(groups)))
     vlib.validate_trace(ctx, "LifecycleTrace", "LifecycleTrace.cfg", alllev, "object-lists", nexec=nexec, key="lifecycle-object-list")
     # the known asleep-deletion scenario: the recorded trace must still follow the algorithm, and violates I2/I5
     ev, tab, out = asleep_delete_scenario(ctx)
